@@ -236,6 +236,8 @@ package logqlmetric
 //@   loop 1 body_ensures[appends-op-result] op_called && op_r1 ==> same(r.Samples[len(r.Samples)-1], op_r0)
 
 //@ func LiteralBinOp
+//@   capture bs = call(buildSampleBinOp, 0)
+//@   ensures[operator-of-this-expression] bs_called && bs_a0 == expr && (bs_r1 != nil ==> ret1 != nil) && (ret1 == nil ==> same(as[*literalBinOpIterator](ret0).op, bs_r0))
 //@   ensures[fields] ret1 == nil ==> typeis[*literalBinOpIterator](ret0) && as[*literalBinOpIterator](ret0).iter == iter && same(as[*literalBinOpIterator](ret0).value, value) && as[*literalBinOpIterator](ret0).left == left
 
 //@ func BinOp
@@ -543,3 +545,20 @@ package logqlmetric
 //@ lemma[C18.max-independent-of-sample-order] sameNumber(maxStep(maxStep(anyF(0), anyB(0), anyF(1)), true, anyF(2)), maxStep(maxStep(anyF(0), anyB(0), anyF(2)), true, anyF(1)))
 //@ lemma[C18.min-independent-of-sample-order] sameNumber(minStep(minStep(anyF(0), anyB(0), anyF(1)), true, anyF(2)), minStep(minStep(anyF(0), anyB(0), anyF(2)), true, anyF(1)))
 //@ lemma[C18.sum-independent-of-sample-order] sameNumber((anyF(0) + anyF(1)) + anyF(2), (anyF(0) + anyF(2)) + anyF(1))
+
+// ---- C12: vector(c) yields, at every grid step, one sample with the constant and no labels,
+// written into the caller's step (the iterator keeps nothing of what it hands out).
+
+//@ scope vector.go
+
+//@ func Vector
+//@   modifies nothing
+//@   ensures[constant-on-the-query-grid] typeis[*vectorIterator](ret0) && same(as[*vectorIterator](ret0).value, expr.Value) && same(as[*vectorIterator](ret0).stepper, newStepper(start, end, step))
+
+//@ func (*vectorIterator).Next
+//@   capture nx = call(i.stepper.next, 0)
+//@   modifies r.Timestamp, r.Samples, r.Samples[*], i.stepper.current
+//@   ensures[ends-with-the-grid] nx_called && ret0 == nx_r1
+//@   ensures[stamped-with-the-grid-time] ret0 ==> r.Timestamp == otelstorage.NewTimestampFromTime(nx_r0)
+//@   ensures[one-sample-with-the-constant] ret0 ==> len(r.Samples) == 1 && same(r.Samples[0].Data, i.value) && typeis[*emptyLabels](r.Samples[0].Set)
+//@   ensures[constant-kept] same(i.value, old(i.value))
